@@ -306,6 +306,9 @@ class Judge:
             else:
                 loc = re.sub(r"^.*/(src/)", r"\1", loc)
             msg = re.sub(r"the len is \d+ but the index is \d+", "the len is N but the index is M", m.group(3) if m else "")
+            # one site = one group whatever the sizes in the message are (the smallest input of the group is reported)
+            msg = re.sub(r"range (end|start) index \d+ out of range for slice of length \d+",
+                         r"range \1 index N out of range for slice of length M", msg)
             sig = f"panic {loc} {msg[:70]}"
         elif reply.startswith("abort"):
             sig = f"abort ({reply}: {'stack overflow / signal' if '-' in reply else 'exit'})"
@@ -330,6 +333,16 @@ class Judge:
         slow, recorded, not a hang; anything steeper, or a halved case that is itself above the limit, is a violation"""
         notes = []
         for stream, build, line, ms in self.slow:
+            # the measurement above the limit was taken with all cores busy: the request is measured once more on its own and the
+            # smaller CPU time counts (the limit itself stays)
+            o1 = vlib.run_lines(vlib.build_harness(build), [line], nproc=1, timeout=LIMIT_MS[build] // 1000 * 3)[0]
+            d1 = dict(x.split("=", 1) for x in o1.split()[1:] if "=" in x) if o1.startswith("ok ") else {}
+            ms1 = int(d1.get("cpu", d1.get("ms", 10 ** 9)))
+            if ms1 <= LIMIT_MS[build]:
+                notes.append({"build": build, "request": line[:400], "cpu_ms_under_load": ms, "cpu_ms_alone": ms1})
+                print(f"# NOTE above the limit only under load ({build}): {ms} ms, {ms1} ms alone: {line[:200]}")
+                continue
+            ms = min(ms, ms1)
             t = line.split()
             t[10] = ",".join((f"{x.split('*')[0]}*{max(1, int(x.split('*')[1]) // 2)}" if "*" in x else x) for x in t[10].split(","))
             half = " ".join(t)
@@ -373,7 +386,7 @@ class Judge:
             ln, build, line, reply, stream = g["best"]
             head = f"{gid}: {g['what']} — {'; '.join(sorted(g['sites']))[:300]}" if g["what"] else g["sites"][0]
             rp = {"stage": "search", "stream": stream, "build": build, "request": line, "observed": reply[:500], "signature": gid}
-            gm = re.search(r"@(\S*/c01fonts/(?:xaat|ggr)/\S+?\.ttf)@", line)
+            gm = re.search(r"@(\S*/c01fonts/(?:xaat|ggr|markruns)/\S+?\.ttf)@", line)
             if gm and os.path.exists(gm.group(1)) and os.path.getsize(gm.group(1)) < 20000:
                 rp["font_hex"] = open(gm.group(1), "rb").read().hex()       # generated font: the replay is self-contained
                 if os.path.exists(gm.group(1)[:-4] + ".json"):
@@ -426,6 +439,16 @@ RULES = {
                         "longer than their coverage, ligatures with 0 / 1 / 15-17 components, mark class past the class count) x texts "
                         "from the rule sequences and over the whole cmap x 4 directions x 3 cluster levels, the font's features on; "
                         "both builds; oracle: no panic / abort / hang, len <= max(64n,16384)",
+    "mark-run-lengths": "every shaper of the compiled crate (dispatch asked through the hooks segprops / scripttags / shaper; up to two "
+                        "scripts each, the syllabic ones through a generated font with the script's GSUB tag) x every modified combining "
+                        "class (asked from the crate) among the script's marks, U+0301 / U+0323 / U+0327 / U+0345 and the marks named in "
+                        "literal code-point lists of the shaper's own source (MODIFIER_COMBINING_MARKS, dagesh forms, ...) x run shapes "
+                        "{one mark repeated (listed and unlisted marks), different marks of the class, the class alternating with 220 / "
+                        "230 / the next class, two blocks of two classes, all classes descending / ascending} x run lengths 1, 2, 31-34, "
+                        "63-65, 127-129, 255-257, 1000 x {after a base, at the start of the text, after a space, between two bases} x "
+                        "{generated cmap-only font, corpus font of the script} x flags {0, BOT|EOT} x directions x cluster levels "
+                        "(quick: position / font / flags in rotation, thorough: the whole product); both builds; oracle: no panic / "
+                        "abort / hang, len <= max(64n,16384)",
     "long": "all corpus fonts x long texts (1 / 64k / 300k x one letter, base + up to 70k marks, conjuncts of 127..2000 consonants, "
             "64k default ignorables, mixed runs); monitors: crash, abort, CPU time of the request (60 s release / 600 s checked; a case "
             "above the limit is re-run at half the length and counts as a hang unless t(n) <= 5 t(n/2)), len <= max(64n,16384)",
@@ -716,6 +739,15 @@ def run_sweep_syllabic(ctx, judge, shim, r, per_case, max_cps):
     for lines in syllabic.sweep_batches(shim, r, per_case, max_cps, bits, rle, stat):
         run_both(judge, "sweep-syllabic", lines, timeout=900)
     ctx.cov["sweep_syllabic"] = stat
+
+
+def markrun_lines(ctx, shim, r, full):
+    """`mark-run-lengths` (added after the seeded change C01h): tools/markruns.py::lines"""
+    import markruns
+    stat = {}
+    L = markruns.lines(shim, r, own_texts(), rle, spec, full, stat)
+    ctx.cov["mark_run_lengths"] = stat
+    return L
 
 
 def metric_lines(r, shim, ncases):
@@ -1257,6 +1289,7 @@ def run(ctx):
     run_both(j, "mutants", mutant_lines(ctx.rng("mutants"), ctx.budget(120000, 1000000)), timeout=900)
     run_both(j, "sweep", sweep_lines(ctx.rng("sweep"), ctx.budget(256, 64), ctx.budget([0, 1, 14], [0, 1, 2, 3, 14, 15, 16])), timeout=900)
     run_sweep_syllabic(ctx, j, shim, ctx.rng("sweep-syllabic"), ctx.budget(4, 32), ctx.budget(200, 6000))
+    run_both(j, "mark-run-lengths", markrun_lines(ctx, shim, ctx.rng("markruns"), ctx.budget(False, True)), timeout=900)
     run_both(j, "gsub-random", gsub_random_lines(ctx.rng("gsubrnd"), ctx.budget(500, 6000)), timeout=900)
     gstat = {}
     run_both(j, "gsub-gpos-random", gsub_gpos_lines(ctx.rng("gsubgpos"), ctx.budget(1500, 20000), ctx.budget(8, 10), gstat), timeout=900)
@@ -1282,7 +1315,7 @@ def replay(ctx, rp):
             # generated fonts of sweep-syllabic live in a cache directory: rebuild them (they depend on the crate only)
             import syllabic
             for _ in syllabic.sweep_batches(vlib.build_harness(), vlib.Rng(1, "replay"), 0, 1, [], rle, {}): pass
-        m = re.search(r"@(\S*/c01fonts/(?:xaat|ggr)/\S+?\.ttf)@", rp["request"])
+        m = re.search(r"@(\S*/c01fonts/(?:xaat|ggr|markruns)/\S+?\.ttf)@", rp["request"])
         if m and "font_hex" in rp:
             os.makedirs(os.path.dirname(m.group(1)), exist_ok=True)
             open(m.group(1), "wb").write(bytes.fromhex(rp["font_hex"]))
